@@ -51,6 +51,7 @@ func (x *Exec) readFieldFrom(env *cxEnv, key, valSort, ref string) Term {
 	}
 	x.emitFrameInst(env.live, v, ref)
 	t := Term{S: fmt.Sprintf("(select %s %s)", v.term, ref), Sort: valSort}
+	x.noteReadClk(env.live, t, env.ev.clk)
 	return t
 }
 
